@@ -106,6 +106,8 @@ var c02Images = []c02Img{
 	{64, 48, "noise", "opaque"}, {100, 3, "gradient", "opaque"}, {16, 16, "c4", "binary"}, {17, 17, "noise", "anoise"},
 	{1, 1, "flat", "transparent"}, {33, 7, "noise", "few"}, {64, 48, "gradient", "agradient"}, {5, 40, "c16", "opaque"},
 	{40, 30, "noise", "late"}, {7, 5, "noise", "lastpx"},
+	// several prefix-code groups on tile grids with an incomplete last row / column group
+	{64, 192, "bandsH", "binary"}, {48, 16, "bandsV", "binary"},
 }
 
 type c02Case struct {
@@ -341,7 +343,7 @@ var _ = math.Abs
 
 func init() {
 	registerCases[c02Case]("C02", "exploration",
-		"image alphabet (14 pictures: sizes 1x1..100x3, opaque/binary/graded/noisy/fully transparent alpha, flat..noise) x EncoderOptions with at most D fields (coupled groups count once) away from DefaultOptions(), D=2 quick / 3 thorough, each field over its menu of valid values (21 fields, 66 non-default values), plus every number of distinct colours 1..260 (lossless) and of alpha levels 1..256 (lossy) on a 20x20 noise layout x Quality{default,0,1,50,100} x Method{default,0,1,2,3,5,6}; oracle = strict RIFF/VP8/VP8L validator + agreement of this package's decoder with the independent decoder",
+		"image alphabet (16 pictures: sizes 1x1..100x3, opaque/binary/graded/noisy/fully transparent alpha, flat..noise) x EncoderOptions with at most D fields (coupled groups count once) away from DefaultOptions(), D=2 quick / 3 thorough, each field over its menu of valid values (21 fields, 66 non-default values), plus every number of distinct colours 1..260 (lossless) and of alpha levels 1..256 (lossy) on a 20x20 noise layout x Quality{default,0,1,50,100} x Method{default,0,1,2,3,5,6}; oracle = strict RIFF/VP8/VP8L validator + agreement of this package's decoder with the independent decoder",
 		[]string{"worker count pinned to 1, pools never reuse", "independent decoder: vendored golang.org/x/image vp8/vp8l + reference ALPH decoder", "validator written from the container specification"},
 		func(e *fw.Env) int {
 			if e.Quick() {
